@@ -330,6 +330,9 @@ class AsyncFIXConnection:
                         self._msg_buffer = self._msg_buffer[parsed_length:]
 
                     if decoded_msg is None:
+                        if parsed_length > 0 and self._msg_buffer:
+                            # garbled data skipped, following messages may be complete
+                            continue
                         break
 
                     await self._process_message(decoded_msg, raw_msg)
@@ -503,7 +506,11 @@ class AsyncFIXConnection:
         if FTag.MsgSeqNum not in msg:
             return "MsgSeqNum(34) tag is missing"
 
-        msg_seq_num = int(msg[FTag.MsgSeqNum])
+        try:
+            msg_seq_num = int(msg[FTag.MsgSeqNum])
+        except ValueError:
+            return "MsgSeqNum(34) tag is invalid"
+
         if msg_seq_num < self._session.next_num_in:
             _is_err = True
             if msg.msg_type == FMsg.SEQUENCERESET:
